@@ -439,6 +439,72 @@ def push_call_into_branches(tree):
     return tree
 
 
+def push_alias_into_branches(tree):
+    """`if c: X = d  else: X = {}; d[k] = X` (or `X = d[k] = {}`) immediately followed by the only use of `X`: the local
+    is an alias of `d` resp. of the fresh `d[k]`; the following statement is moved into the branches with `X` replaced by
+    what it aliases (`d`, `d[k]`), and the fresh dictionary is stored first as in `d[k] = {}`."""
+    def alias_of(branch, x_name):
+        """(statements to keep, expression X stands for) for one branch, or None"""
+        if len(branch) == 1 and isinstance(branch[0], ast.Assign):
+            a = branch[0]
+            if len(a.targets) == 1 and isinstance(a.targets[0], ast.Name) and a.targets[0].id == x_name and isinstance(a.value, ast.Name):
+                return [], a.value
+            if len(a.targets) == 2 and isinstance(a.value, ast.Dict) and not a.value.keys:
+                names = [t for t in a.targets if isinstance(t, ast.Name) and t.id == x_name]
+                subs = [t for t in a.targets if isinstance(t, ast.Subscript) and isinstance(t.value, ast.Name)]
+                if len(names) == 1 and len(subs) == 1:
+                    keep = ast.copy_location(ast.Assign(targets=[copy.deepcopy(subs[0])], value=a.value), a)
+                    load = copy.deepcopy(subs[0]); load.ctx = ast.Load()
+                    return [keep], load
+        if len(branch) == 2 and all(isinstance(b, ast.Assign) and len(b.targets) == 1 for b in branch):
+            a, b = branch
+            if isinstance(a.targets[0], ast.Name) and a.targets[0].id == x_name and isinstance(a.value, ast.Dict) and not a.value.keys \
+                    and isinstance(b.targets[0], ast.Subscript) and isinstance(b.targets[0].value, ast.Name) \
+                    and isinstance(b.value, ast.Name) and b.value.id == x_name:
+                keep = ast.copy_location(ast.Assign(targets=[copy.deepcopy(b.targets[0])], value=a.value), a)
+                load = copy.deepcopy(b.targets[0]); load.ctx = ast.Load()
+                return [keep], load
+        return None
+
+    def per_function(fn):
+        count = {}
+        for n in ast.walk(fn):
+            if isinstance(n, ast.Name):
+                count[n.id] = count.get(n.id, 0) + 1
+
+        def f(stmts):
+            out = []
+            i = 0
+            while i < len(stmts):
+                s = stmts[i]
+                nxt = stmts[i + 1] if i + 1 < len(stmts) else None
+                done = False
+                if isinstance(s, ast.If) and s.orelse and nxt is not None and not (len(s.orelse) == 1 and isinstance(s.orelse[0], ast.If)):
+                    cands = {t.id for b in (s.body, s.orelse) for a in b if isinstance(a, ast.Assign) for t in a.targets if isinstance(t, ast.Name)}
+                    for x in cands:
+                        ra, rb = alias_of(s.body, x), alias_of(s.orelse, x)
+                        uses_next = sum(1 for n in ast.walk(nxt) if isinstance(n, ast.Name) and n.id == x and isinstance(n.ctx, ast.Load))
+                        occurrences = sum(1 for b in (s.body, s.orelse) for n in ast.walk(ast.Module(body=b, type_ignores=[]))
+                                          if isinstance(n, ast.Name) and n.id == x)
+                        if ra and rb and uses_next == 1 and count.get(x, 0) == occurrences + 1:
+                            s.body = ra[0] + [_Subst({x: ra[1]}).visit(copy.deepcopy(nxt))]
+                            s.orelse = rb[0] + [_Subst({x: rb[1]}).visit(copy.deepcopy(nxt))]
+                            out.append(s)
+                            i += 2
+                            done = True
+                            break
+                if not done:
+                    out.append(s)
+                    i += 1
+            return out
+        fn.body = _map_body(fn.body, f)
+
+    for n in ast.walk(tree):
+        if isinstance(n, ast.FunctionDef):
+            per_function(n)
+    return tree
+
+
 def _inlinable(fn):
     a = fn.args
     if a.vararg or a.kwarg or a.kwonlyargs or a.posonlyargs or a.defaults or fn.decorator_list:
@@ -589,6 +655,68 @@ def keywords_to_positional(tree, signatures, aliases):
             if kw:
                 return n                                   # a gap (an omitted default before a given keyword): leave
             return ast.copy_location(ast.Call(func=n.func, args=args, keywords=[]), n)
+    return T().visit(tree)
+
+
+def int_idioms(tree):
+    """integer idioms brought to the forms the sources use:  `A >= 1 << E` and `A >> E` (as a condition) are
+    `A > 2 ** E - 1` for a non-negative `A` (a `len(...)`) and a shift `E` of the form `8 * k` / constant;
+    `X.to_bytes(n, order)` for `X = len(...)` is `int.to_bytes(X, n, order)`;
+    `D.append(E)` on a name is `D += int.to_bytes(E, 1, "big")` (equal for 0 <= E < 256, the only values a length-of-length
+    byte takes)."""
+    def is_len(e):
+        return isinstance(e, ast.Call) and isinstance(e.func, ast.Name) and e.func.id == "len" and len(e.args) == 1 and not e.keywords
+
+    def shift_ok(e):
+        if isinstance(e, ast.Constant) and isinstance(e.value, int) and not isinstance(e.value, bool) and e.value >= 0:
+            return True
+        return isinstance(e, ast.BinOp) and isinstance(e.op, ast.Mult) and (
+            (isinstance(e.left, ast.Constant) and e.left.value == 8 and isinstance(e.right, ast.Name)) or
+            (isinstance(e.right, ast.Constant) and e.right.value == 8 and isinstance(e.left, ast.Name)))
+
+    def pow2_minus_1(E):
+        return ast.BinOp(left=ast.BinOp(left=ast.Constant(value=2), op=ast.Pow(), right=E), op=ast.Sub(), right=ast.Constant(value=1))
+
+    class T(ast.NodeTransformer):
+        def visit_Compare(self, n):
+            self.generic_visit(n)
+            if len(n.ops) == 1 and isinstance(n.ops[0], ast.GtE) and is_len(n.left):
+                r = n.comparators[0]
+                if isinstance(r, ast.BinOp) and isinstance(r.op, ast.LShift) and isinstance(r.left, ast.Constant) and r.left.value == 1 and shift_ok(r.right):
+                    return ast.copy_location(ast.Compare(left=n.left, ops=[ast.Gt()], comparators=[pow2_minus_1(r.right)]), n)
+            return n
+
+        def visit_While(self, n):
+            self.generic_visit(n)
+            t = n.test
+            if isinstance(t, ast.BinOp) and isinstance(t.op, ast.RShift) and is_len(t.left) and shift_ok(t.right):
+                n.test = ast.copy_location(ast.Compare(left=t.left, ops=[ast.Gt()], comparators=[pow2_minus_1(t.right)]), t)
+            return n
+
+        def visit_BinOp(self, n):
+            self.generic_visit(n)
+            # `c | x` is `x | c` for an integer literal c (bitwise operators commute)
+            if isinstance(n.op, (ast.BitOr, ast.BitAnd, ast.BitXor)) and isinstance(n.left, ast.Constant) and isinstance(n.left.value, int) \
+                    and not isinstance(n.left.value, bool) and not isinstance(n.right, ast.Constant):
+                n.left, n.right = n.right, n.left
+            return n
+
+        def visit_Call(self, n):
+            self.generic_visit(n)
+            if isinstance(n.func, ast.Attribute) and n.func.attr == "to_bytes" and is_len(n.func.value) and not n.keywords:
+                return ast.copy_location(ast.Call(func=ast.Attribute(value=ast.Name(id="int", ctx=ast.Load()), attr="to_bytes", ctx=ast.Load()),
+                                                  args=[n.func.value] + list(n.args), keywords=[]), n)
+            return n
+
+        def visit_Expr(self, n):
+            self.generic_visit(n)
+            c = n.value
+            if isinstance(c, ast.Call) and isinstance(c.func, ast.Attribute) and c.func.attr == "append" and isinstance(c.func.value, ast.Name) \
+                    and len(c.args) == 1 and not c.keywords:
+                conv = ast.Call(func=ast.Attribute(value=ast.Name(id="int", ctx=ast.Load()), attr="to_bytes", ctx=ast.Load()),
+                                args=[c.args[0], ast.Constant(value=1), ast.Constant(value="big")], keywords=[])
+                return ast.copy_location(ast.AugAssign(target=ast.Name(id=c.func.value.id, ctx=ast.Store()), op=ast.Add(), value=conv), n)
+            return n
     return T().visit(tree)
 
 
